@@ -426,8 +426,45 @@ pub fn check_must_reject(rng: &mut Rng, corpus: &[String], rep: &mut Report) {
         format!("{}(?:{}|{}){}", wrap(&a), t, t, wrap(&b)),
         format!("{}", t),
     ];
-    let p = rng.pick_ref(&forms).clone();
+    let mut p = rng.pick_ref(&forms).clone();
     let _ = corpus;
+    // Half of the time the terminator is written as a raw character inside
+    // a plain literal / fixed string (possibly next to other -e patterns):
+    // those take the builder's literal shortcut instead of the regex parser.
+    let mut extra: Vec<String> = vec![];
+    let raw_literal = rng.chance(1, 2);
+    if raw_literal {
+        let tch = match flags.term {
+            Term::Lf => "\n",
+            Term::Nul => "\0",
+            Term::Crlf => rng.pick(&["\n", "\r", "\r\n"]),
+        };
+        let l1 = rng.pick(&["foo", "a", "", "x y", "bar"]);
+        let l2 = rng.pick(&["bar", "b", "", "z"]);
+        p = format!("{}{}{}", l1, tch, l2);
+        flags.fixed = rng.bool();
+        flags.case = crate::oracle::Case::Sensitive;
+        if rng.bool() {
+            extra.push("zzz".to_string());
+        }
+        let mut pats = extra.clone();
+        pats.insert(rng.below(pats.len() + 1), p.clone());
+        rep.evaluations += 1;
+        rep.count("must_reject_raw_literal_patterns_tried");
+        if let Ok(m) = oracle::build_matcher(&pats, &flags) {
+            if m.line_terminator().is_some() {
+                rep.violation(
+                    &format!("C11:{}:literal-with-raw-terminator-accepted", flags.term.name()),
+                    format!("patterns {:?} (flags {:?}) contain the line terminator as a raw character but the builder accepted them", pats, flags.cli_args()),
+                    || json!({"case": {"patterns": pats, "flags": flags.to_json()}, "must_reject": true}),
+                );
+            }
+        } else {
+            rep.count("must_reject_patterns_rejected");
+            rep.nontrivial(fnv_parts(&[p.as_bytes(), format!("{:?}", flags).as_bytes()]));
+        }
+        return;
+    }
     rep.evaluations += 1;
     rep.count("must_reject_patterns_tried");
     // only meaningful if the pattern without the terminator piece is fine
